@@ -97,7 +97,7 @@ func callNextReader(c *Conn) (mt int, r io.Reader, err error, closed bool) {
 // VerifH_C15_reader: arbitrary byte stream, arbitrary fragmentation, optional injected
 // stream error, arbitrary read limit, a script of NextReader / partial Read / drain steps.
 func VerifHT_C15_reader_script() {
-	c15Script(5, 3, -1, true, true, 0)
+	c15Script(4, 3, -1, true, true, 0)
 }
 
 // Quick variants: the same oracle with a fixed call pattern each.
